@@ -56,6 +56,8 @@ type akind struct {
 var c20Args = []akind{
 	{"number", "7"}, {"fraction", "2.5"}, {"int", "$count([1,2,3])"}, {"string", `"str"`}, {"boolean", "true"},
 	{"array", `[1,"a"]`}, {"object", `{"k":1}`}, {"function", "$sum"}, {"missing", "nothing"}, {"big", "300"},
+	// a function that went through a library function and is held by value
+	{"function-by-value", "$distinct([$sum])[0]"},
 }
 
 // describe renders a recorded Go argument.
@@ -127,7 +129,7 @@ func describe(v reflect.Value) string {
 // for an argument type error.
 func convert(a akind, t reflect.Type) (string, bool) {
 	raw := map[string]string{"number": "float64:7", "fraction": "float64:2.5", "int": "int:3", "string": "string:str", "boolean": "bool:true",
-		"array": `slice:[1,"a"]`, "object": `map:{"k":1}`, "function": "callable", "big": "float64:300"}[a.Name]
+		"array": `slice:[1,"a"]`, "object": `map:{"k":1}`, "function": "callable", "function-by-value": "callable", "big": "float64:300"}[a.Name]
 	num := a.Name == "number" || a.Name == "fraction" || a.Name == "int" || a.Name == "big"
 	numVal := map[string]float64{"number": 7, "fraction": 2.5, "int": 3, "big": 300}[a.Name]
 	if a.Name == "missing" {
@@ -183,7 +185,7 @@ func convert(a akind, t reflect.Type) (string, bool) {
 			return raw, true
 		}
 	case tCall:
-		if a.Name == "function" {
+		if a.Name == "function" || a.Name == "function-by-value" {
 			return "callable", true
 		}
 	}
